@@ -1118,7 +1118,6 @@ class Client():
                                         ('data', self.requester.data),
                                         ('fargs', copy.copy(self.requester.fargs)),
                                        ])
-                        self.latest = None
                     else:
                         request = dict([
                                          ('host', self.requester.hostname),
@@ -1158,6 +1157,7 @@ class Client():
                         self.redirects = []
                         self.responses.append(response)
                         self.waited = False
+                        self.latest = None  # done with request so forget
                 self.respondent.makeParser()  #set up for next time
 
 
